@@ -19,7 +19,7 @@
 //
 // Build:
 //   g++ -O1 -g -w -pthread -fno-access-control -DHAVE_CONFIG_H -I/repo -I/repo/src -I/verif/mc \
-//       /verif/findings/c15_gjkr_extraction_complaint_dos.cc /verif/build/plain/mc/env_shim.o /verif/build/plain/libtmcg.a \
+//       /verif/findings/obs_c15_gjkr_extraction_complaint_dos.cc /verif/build/plain/mc/env_shim.o /verif/build/plain/libtmcg.a \
 //       -lgcrypt -lgmp -lgpg-error -ldl -o /tmp/c15_dos && /tmp/c15_dos
 // Exit status 1 on the defective tree, 0 otherwise.
 #include "sched.hh"
